@@ -7,6 +7,7 @@ import (
 	"go/ast"
 	"go/token"
 	"go/types"
+	"os"
 	"strings"
 
 	"golang.org/x/tools/go/ssa"
@@ -808,16 +809,29 @@ func paramOnlyRead(v ssa.Value, d int) bool {
 func sortedAfterLoop(c *Ctx, mr *mapRange, kind, canonAddr string, phi *ssa.Phi, keyT types.Type) (bool, string) {
 	fn := mr.fn
 	var cands []*ssa.Call
+	var inner map[*ssa.Call]*ssa.Call
 	for _, b := range fn.Blocks {
 		if mr.loop.Blocks[b] {
 			continue
 		}
 		for _, in := range b.Instrs {
 			call, ok := in.(*ssa.Call)
-			if !ok || !isSortCall(calleeName(call)) {
+			if !ok {
 				continue
 			}
-			t := sortTarget(call)
+			var t ssa.Value
+			if isSortCall(calleeName(call)) {
+				t = sortTarget(call)
+			} else if in2, idx := sortWrapperOf(c, call); in2 != nil {
+				// a helper of the module that always sorts its idx-th argument
+				t = call.Call.Args[idx]
+				if inner == nil {
+					inner = map[*ssa.Call]*ssa.Call{}
+				}
+				inner[call] = in2
+			} else {
+				continue
+			}
 			match := false
 			if kind == "cell" {
 				if ld, ok := t.(*ssa.UnOp); ok && ld.Op == token.MUL && canon(ld.X) == canonAddr {
@@ -855,7 +869,11 @@ func sortedAfterLoop(c *Ctx, mr *mapRange, kind, canonAddr string, phi *ssa.Phi,
 			why = append(why, "sort at "+c.P.ipos(call)+" does not lie on every path from the loop to the function's exits")
 			continue
 		}
-		ok, how := sortKeyCovers(c, call, keyT)
+		sc := call
+		if in2 := inner[call]; in2 != nil {
+			sc = in2
+		}
+		ok, how := sortKeyCovers(c, sc, keyT)
 		if !ok {
 			why = append(why, "sort at "+c.P.ipos(call)+": "+how)
 			continue
@@ -918,6 +936,9 @@ func lessCoversKey(c *Ctx, less *ssa.Function, keyT types.Type) (bool, string) {
 	rv := rets[0].Results[0]
 	norm := func(v ssa.Value, me, other *ssa.Parameter) (string, bool) {
 		s := canon(v)
+		if k := c.keyThroughFuncValue(v); k != "" {
+			s = k // key(&x[i]) with key a selector of one field at every call site
+		}
 		if !strings.Contains(s, "["+me.Name()+"]") || strings.Contains(s, "["+other.Name()+"]") {
 			return "", false
 		}
@@ -1019,4 +1040,55 @@ func lessMethodConsultsAllFields(fn *ssa.Function) (bool, string) {
 		return false, fmt.Sprintf("%s never consults field(s) %s of both operands: keys differing only there compare equal", shortName(fn), strings.Join(missing, ", "))
 	}
 	return true, fmt.Sprintf("%d/%d fields consulted", st.NumFields(), st.NumFields())
+}
+
+// sortWrapperOf: call invokes a function of the module that sorts one of its parameters on every path (exactly one
+// sort call, on the parameter itself, in a block that every return passes through). Returns that inner sort call and the
+// parameter's index.
+func sortWrapperOf(c *Ctx, call *ssa.Call) (*ssa.Call, int) {
+	h := call.Call.StaticCallee()
+	if h == nil || call.Call.IsInvoke() || len(h.Blocks) == 0 || !c.P.isModuleFn(h) {
+		return nil, -1
+	}
+	if os.Getenv("GTFSDEBUGSW") != "" {
+		fmt.Fprintln(os.Stderr, "sortWrapperOf", h.String(), len(h.Blocks))
+	}
+	var sorts []*ssa.Call
+	for _, b := range h.Blocks {
+		for _, in := range b.Instrs {
+			if sc, ok := in.(*ssa.Call); ok && isSortCall(calleeName(sc)) {
+				sorts = append(sorts, sc)
+			}
+		}
+	}
+	if os.Getenv("GTFSDEBUGSW") != "" && len(sorts) > 0 {
+		fmt.Fprintf(os.Stderr, "  sorts=%d target=%T %v\n", len(sorts), sortTarget(sorts[0]), sortTarget(sorts[0]))
+	}
+	if len(sorts) != 1 {
+		return nil, -1
+	}
+	tv := sortTarget(sorts[0])
+	if ld, isLd := tv.(*ssa.UnOp); isLd && ld.Op == token.MUL {
+		// a parameter captured by the comparator lives in a cell: the cell holds the parameter and nothing else
+		if al, isAl := ld.X.(*ssa.Alloc); isAl {
+			if st := cellStores(al); len(st) == 1 {
+				tv = st[0]
+			}
+		}
+	}
+	pa, ok := tv.(*ssa.Parameter)
+	if !ok {
+		return nil, -1
+	}
+	for _, b := range h.Blocks {
+		if _, isRet := b.Instrs[len(b.Instrs)-1].(*ssa.Return); isRet && !sorts[0].Block().Dominates(b) {
+			return nil, -1
+		}
+	}
+	for i, q := range h.Params {
+		if q == pa && i < len(call.Call.Args) {
+			return sorts[0], i
+		}
+	}
+	return nil, -1
 }
